@@ -188,7 +188,7 @@ func (fr *frame) nativeOf(t types.Type, v value) (interface{}, bool) {
 			if isTimeType(t) && name == "String" {
 				break
 			}
-			if f := m.p.prog.LookupMethod(t, nil, name); f != nil {
+			if f := m.p.findMethod(t, name); f != nil {
 				sig := f.Signature
 				if sig.Params().Len() == 0 && sig.Results().Len() == 1 && isString(sig.Results().At(0).Type()) {
 					if p, ok := v.(*value); ok && p == nil {
@@ -388,7 +388,7 @@ func (fr *frame) writeTo(w value, s value) value {
 	if wi.t == nil {
 		fr.tpanic("nil io.Writer")
 	}
-	f := fr.m.p.prog.LookupMethod(wi.t, nil, "Write")
+	f := fr.m.p.findMethod(wi.t, "Write")
 	if f == nil {
 		panic(pathAbort{"Fprint to a writer without Write"})
 	}
